@@ -20,7 +20,10 @@ use p256::ecdsa::{signature::Signer, signature::Verifier, Signature, SigningKey,
 use rand::Rng;
 use sha2::Digest;
 
-pub fn mget<'a>(v: &'a Value, k: &str) -> Option<&'a Value> { v.as_map()?.iter().find(|(kk, _)| kk.as_text() == Some(k)).map(|(_, x)| x) }
+/// a serde-derived struct field: serde's field identifiers accept a text string OR a byte string with the same bytes
+pub fn mget<'a>(v: &'a Value, k: &str) -> Option<&'a Value> { v.as_map()?.iter().find(|(kk, _)| kk.as_text() == Some(k) || kk.as_bytes().map(|b| b.as_slice()) == Some(k.as_bytes())).map(|(_, x)| x) }
+/// a key of a string-keyed map (BTreeMap<String, _>): text only
+pub fn mget_key<'a>(v: &'a Value, k: &str) -> Option<&'a Value> { v.as_map()?.iter().find(|(kk, _)| kk.as_text() == Some(k)).map(|(_, x)| x) }
 pub fn mget_mut<'a>(v: &'a mut Value, k: &str) -> Option<&'a mut Value> { match v { Value::Map(m) => m.iter_mut().find(|(kk, _)| kk.as_text() == Some(k)).map(|(_, x)| x), _ => None } }
 pub fn mdel(v: &mut Value, k: &str) { if let Value::Map(m) = v { m.retain(|(kk, _)| kk.as_text() != Some(k)); } }
 pub fn doc0(v: &Value) -> Option<&Value> { mget(v, "documents")?.as_array()?.first() }
@@ -123,7 +126,7 @@ pub fn facts(v: &Value, registry: &TrustAnchorRegistry, transcript: &Value) -> S
     let chain = x5v.clone().and_then(|x| X5Chain::from_cbor(x).ok());
     let nsv = d.and_then(|d| mget(d, "issuerSigned")).and_then(|i| mget(i, "nameSpaces"));
     // a namespace the reader reports (core or AAMVA) is present
-    let core = nsv.and_then(|n| mget(n, NS)).is_some() || nsv.and_then(|n| mget(n, "org.iso.18013.5.1.aamva")).is_some();
+    let core = nsv.and_then(|n| mget_key(n, NS)).is_some() || nsv.and_then(|n| mget_key(n, "org.iso.18013.5.1.aamva")).is_some();
     let chain_errs = chain.as_ref().map(|c| ValidationRuleset::Mdl.validate(c, registry).errors.len()).unwrap_or(0);
     // the key of the FIRST certificate of the x5chain, parsed with x509-cert directly (not through the library's X5Chain)
     let first_der: Option<Vec<u8>> = match &x5v { Some(Value::Bytes(b)) => Some(b.clone()), Some(Value::Array(a)) => a.first().and_then(|x| x.as_bytes().cloned()), _ => None };
@@ -204,8 +207,8 @@ fn reported_covered(v: &Value, o: &ResponseAuthenticationOutcome) -> bool {
     for (ns, elems) in &o.response {
         let Some(obj) = elems.as_object() else { continue };
         for (ident, _val) in obj {
-            let items = mget(d, "issuerSigned").and_then(|i| mget(i, "nameSpaces")).and_then(|n| mget(n, ns)).and_then(|a| a.as_array()).cloned().unwrap_or_default();
-            let vd = mso_v.as_ref().and_then(|m| mget(m, "valueDigests")).and_then(|x| mget(x, ns)).and_then(|x| x.as_map()).cloned().unwrap_or_default();
+            let items = mget(d, "issuerSigned").and_then(|i| mget(i, "nameSpaces")).and_then(|n| mget_key(n, ns)).and_then(|a| a.as_array()).cloned().unwrap_or_default();
+            let vd = mso_v.as_ref().and_then(|m| mget(m, "valueDigests")).and_then(|x| mget_key(x, ns)).and_then(|x| x.as_map()).cloned().unwrap_or_default();
             let covered = items.iter().any(|it| (|| { let b = match it { Value::Tag(24, b) => b.as_bytes()?.clone(), _ => return None };
                 let iv: Value = cbor::from_slice(&b).ok()?;
                 if mget(&iv, "elementIdentifier")?.as_text()? != ident { return None; }
